@@ -351,7 +351,7 @@ ARRAY_VARIANTS = [(2, "ndarray", "unit"), (3, "list", "unit"), (4, "tuple", "uni
 ARRAY_VARIANTS += [(n, c, f) for f in _FLAVOURS for c in _CONTAINERS for n in _NS if (n, c, f) not in ARRAY_VARIANTS]
 
 
-def array_profile(rng, variant, scale):
+def array_profile(rng, variant, scale, zero_mode=None):
     """A valid 2xN profile (first row psi_n knots, strictly increasing and covering [0, 1]; second row
     values, not monotone) in the requested container / dtype, and its description."""
     from common import dyadic
@@ -377,6 +377,15 @@ def array_profile(rng, variant, scale):
             mid.add(dyadic(rng, 0.02, 0.98, 6))
         xs = sorted(set(ends) | mid)
         ys = [scale * dyadic(rng, -4, 4, 4) for _ in xs]
+    if zero_mode == "zero":
+        ys = [0 if flavour == "int" else rng.choice([0.0, 0.0, -0.0]) for _ in xs]
+    elif zero_mode == "partial":
+        # knot values of exactly 0 at both ends (psi_n = 0 and 1 are sampled: clamp, LCFS plateau) and, from six
+        # knots on, a run of four zero knots, between whose middle pair the cubic interpolant is identically zero
+        ys = [y if y != 0 else (1 if flavour == "int" else scale) for y in ys]
+        for i_, x_ in enumerate(xs):
+            if x_ in (0, 1) or (n >= 6 and i_ < 4):
+                ys[i_] = 0 if flavour == "int" else 0.0
     canon = np.array([xs, ys], dtype=np.int64 if flavour == "int" else np.float64)
 
     def make():
@@ -401,12 +410,34 @@ class Profile:
     array-like), with an independent evaluator: for an array the documented interpolant of the array AS
     GIVEN (first row psi_n, second row values; cubic, no extrapolation)."""
 
-    def __init__(self, rng, scale=1.0, array_variant=None):
+    def __init__(self, rng, scale=1.0, array_variant=None, zero_mode=None):
+        """zero_mode: None (generic values), "zero" (identically zero, in one of the forms a user may write
+        it), "partial" (exactly zero on part of the psi_n range / at sampled psi_n, non-zero elsewhere)."""
         from common import dyadic
         from raysect.core.math.function.float import Interpolator1DArray
         self.kind = "array" if array_variant is not None else rng.choice(["pyfunc", "function1d", "array", "array", "constant"])
         self.xmin, self.xmax = float("-inf"), float("inf")
-        if self.kind == "pyfunc":
+        self.zero_mode = zero_mode
+        if zero_mode == "zero" and self.kind != "array":
+            from cherab.core.math import Constant1D
+            form = rng.choice(["function returning int 0", "function returning 0.0", "function returning -0.0",
+                               "function 0.0 * psi_n", "cherab Constant1D(0.0)", "cherab Constant1D(-0.0)", "Interpolator1DArray of zeros"])
+            self.kind = "function1d" if "1D" in form else "pyfunc"
+            self.desc = {"kind": "identically zero: " + form}
+            self.arg = {"function returning int 0": (lambda p: 0), "function returning 0.0": (lambda p: 0.0),
+                        "function returning -0.0": (lambda p: -0.0), "function 0.0 * psi_n": (lambda p: 0.0 * p),
+                        "cherab Constant1D(0.0)": Constant1D(0.0), "cherab Constant1D(-0.0)": Constant1D(-0.0),
+                        "Interpolator1DArray of zeros": Interpolator1DArray(np.array([-1.0, 0.0, 1.0, 50.0]), np.zeros(4), "cubic", "nearest", 1e6)}[form]
+            self.ref = self.arg
+        elif zero_mode == "partial" and self.kind != "array":
+            a = scale * rng.choice([-1, 1]) * dyadic(rng, 0.5, 4, 4)
+            c = rng.choice([0.25, 0.5, 0.75])
+            low = rng.random() < 0.5
+            self.kind = "pyfunc"
+            self.desc = {"kind": "step function: exactly 0 for psi_n %s %g, %g elsewhere" % ("<" if low else ">=", c, a)}
+            self.arg = (lambda p, a=a, c=c: 0.0 if p < c else a) if low else (lambda p, a=a, c=c: a if p < c else 0.0)
+            self.ref = self.arg
+        elif self.kind == "pyfunc":
             a, b, c = (scale * dyadic(rng, -4, 4, 4) for _ in range(3))
             self.desc = {"kind": "pyfunc", "a": a, "b": b, "c": c}
             self.arg = lambda p, a=a, b=b, c=c: a + b * p + c * p * p
@@ -428,7 +459,9 @@ class Profile:
         else:
             if array_variant is None:
                 array_variant = ARRAY_VARIANTS[rng.randrange(len(ARRAY_VARIANTS))]
-            self.make_arg, self.desc = array_profile(rng, array_variant, scale)
+            self.make_arg, self.desc = array_profile(rng, array_variant, scale, zero_mode)
+            if zero_mode:
+                self.desc["zero_mode"] = zero_mode
             self.arg = self.make_arg()
             given = np.array(self.arg, dtype=np.float64)
             assert given.shape == (2, array_variant[0]), given.shape
@@ -455,6 +488,7 @@ INVALID_PROFILES = {
     "1-D array": [0.0, 1.0, 2.0],
     "ragged rows": [[0.0, 0.5, 1.0], [1.0, 2.0]],
     "1xN (values row missing)": [[0.0, 0.5, 1.0]],
+    "bare number instead of a function or array": 0.0,
 }
 
 
@@ -519,7 +553,14 @@ class ProfileSet:
         else:
             self.outside_form = rng.choice(["float", "numpy.float64"])
         self.default_outside = self.outside_form == "omitted"
-        self.vt, self.vp, self.vn = Profile(rng, 4.0 * sc, vv[0]), Profile(rng, sc, vv[1]), Profile(rng, sc, vv[2])
+        # every combination of (identically zero | not) over the three velocity components, by the running index;
+        # the components that are not identically zero alternate between generic profiles and profiles that are
+        # exactly zero on part of the psi_n range
+        bits = (index if index is not None else rng.randrange(8)) % 8
+        rnd = (index if index is not None else rng.randrange(16)) // 8
+        zm = ["zero" if bits >> j & 1 else ("partial" if (rnd + j) % 2 else None) for j in range(3)]
+        self.zero_modes = {"toroidal": zm[0] or "generic", "poloidal": zm[1] or "generic", "normal": zm[2] or "generic"}
+        self.vt, self.vp, self.vn = (Profile(rng, 4.0 * sc, vv[0], zm[0]), Profile(rng, sc, vv[1], zm[1]), Profile(rng, sc, vv[2], zm[2]))
         u = rng.random()
         if u < 0.3:
             self.outv, self.outv_t = None, (0.0, 0.0, 0.0)
@@ -531,7 +572,7 @@ class ProfileSet:
 
     def describe(self):
         return {"scalar": self.scalar.desc, "outside": self.outside, "outside_form": self.outside_form,
-                "value_scale": "2^%d" % self.scale_exp,
+                "value_scale": "2^%d" % self.scale_exp, "velocity_zero_modes": self.zero_modes,
                 "toroidal": self.vt.desc, "poloidal": self.vp.desc, "normal": self.vn.desc,
                 "outside_vector": None if self.outv is None else list(self.outv_t), "outside_vector_form": self.outv_form}
 
@@ -744,9 +785,29 @@ def property_failures(E, PS, fns, o, poly_mask_value=None):
         if not inside:
             if max(abs(v2_[i] - outv[i]) for i in range(3)) > 0.0:
                 fail("map_vector2d outside the LCFS is not the outside vector", got=v2_, expected=outv)
-        elif not degenerate:
+        elif degenerate:
+            if v2_[0] != 0.0 or v2_[2] != 0.0 or v2_[1] != PS.vt.value(p):
+                fail("mapped velocity at a point of vanishing in-plane field is not exactly (0, v_toroidal, 0)", got=v2_,
+                     v_toroidal=PS.vt.value(p))
+        else:
             comps = (dot(v2_, t), dot(v2_, pv), dot(v2_, nv))
             exp = (PS.vt.value(p), PS.vp.value(p), PS.vn.value(p))
+            # a prescribed speed of exactly 0: that component must vanish to rounding of the others (1e-13), and the
+            # vector must be exactly the sum of the remaining parts
+            for i, nm in enumerate(("toroidal", "poloidal", "normal")):
+                if exp[i] == 0.0 and abs(comps[i]) > 1e-13 * scale:
+                    fail("mapped velocity has a %s component although the prescribed %s speed is exactly 0" % (nm, nm),
+                         components=comps, expected=exp)
+            if exp[1] == 0.0 and exp[2] == 0.0 and (v2_[0] != 0.0 or v2_[2] != 0.0 or v2_[1] != exp[0]):
+                fail("mapped velocity is not exactly (0, v_toroidal, 0) for zero poloidal and normal speeds", got=v2_, expected=(0.0, exp[0], 0.0))
+            if exp[0] == 0.0 and v2_[1] != 0.0:
+                fail("mapped velocity has a toroidal part although the prescribed toroidal speed is exactly 0", got=v2_)
+            if exp[1] == 0.0 and exp[2] != 0.0 and max(abs(v2_[i] - (exp[2] * nv[i] + exp[0] * t[i])) for i in range(3)) > 1e-13 * scale:
+                fail("mapped velocity is not v_toroidal * toroidal + v_normal * normal for a poloidal speed of exactly 0",
+                     got=v2_, normal=nv, expected_speeds=exp)
+            if exp[2] == 0.0 and exp[1] != 0.0 and max(abs(v2_[i] - (exp[1] * pv[i] + exp[0] * t[i])) for i in range(3)) > 1e-13 * scale:
+                fail("mapped velocity is not v_toroidal * toroidal + v_poloidal * poloidal for a normal speed of exactly 0",
+                     got=v2_, poloidal=pv, expected_speeds=exp)
             if max(abs(comps[i] - exp[i]) for i in range(3)) > TOL * scale:
                 fail("mapped velocity does not have the prescribed (toroidal, poloidal, normal) components",
                      components=comps, expected=exp)
@@ -1079,3 +1140,45 @@ def extreme_scale_failures():
             fails.append(dict(info, clause="basis vectors are not of unit length for a flux map of extreme magnitude (b_r^2 + b_z^2 under/overflows)",
                               b_field=b, poloidal=pv, normal=nv, mapped_velocity=vv))
     return fails
+
+
+def unit_basis_failures(E, evaluated, rng, n=6):
+    """map_vector2d(1, 0, 0) == toroidal_vector, (0, 1, 0) == poloidal_vector, (0, 0, 1) == surface_normal
+    inside the LCFS (to 1e-15; the outside vector elsewhere) and their 3-D counterparts rotated by the
+    toroidal angle (1e-12), with the constants written as Python functions, cherab Constant1D objects
+    and 2x2 arrays, at points of this run."""
+    from cherab.core.math import Constant1D
+    eq = E.eq
+    fails = []
+    count = 0
+
+    def const(v):
+        form = rng.choice(["function", "Constant1D", "2x2 array", "2x3 int list"])
+        if form == "function":
+            return (lambda p, v=v: v), form
+        if form == "Constant1D":
+            return Constant1D(float(v)), form
+        if form == "2x2 array":
+            return np.array([[0.0, 1.0], [v, v]]), form
+        return [[-1, 0, 2], [int(v), int(v), int(v)]], form
+    names = ("toroidal_vector", "poloidal_vector", "surface_normal")
+    sample = [e for e in evaluated if e[4]["inside"]]
+    rng.shuffle(sample)
+    for which in range(3):
+        args, forms = zip(*[const(1.0 if j == which else 0.0) for j in range(3)])
+        w2, w3 = eq.map_vector2d(*args), eq.map_vector3d(*args)
+        for (x, y, z, k, o) in sample[:n]:
+            r = o["r"]
+            want = (o["tor"], o["pol"], o["nor"])[which]
+            got2, got3 = v3(w2(r, z)), v3(w3(x, y, z))
+            count += 2
+            info = {"unit_speeds(toroidal, poloidal, normal)": [1.0 if j == which else 0.0 for j in range(3)], "forms": list(forms),
+                    "point": [x, y, z], "r": r, "equilibrium": E.describe()}
+            if max(abs(got2[i] - want[i]) for i in range(3)) > 1e-15:
+                fails.append(dict(info, clause="map_vector2d with unit %s speed and zero others is not the %s" % (("toroidal", "poloidal", "normal")[which], names[which]),
+                                  got=got2, expected=want))
+            want3 = rotz(x / r, y / r, want) if r > 0 else want
+            if max(abs(got3[i] - want3[i]) for i in range(3)) > 1e-12:
+                fails.append(dict(info, clause="map_vector3d with unit %s speed and zero others is not the rotated %s" % (("toroidal", "poloidal", "normal")[which], names[which]),
+                                  got=got3, expected=want3))
+    return fails, count
